@@ -209,6 +209,16 @@ func runC03(c *ctx) {
 		}
 	}
 
+	// 2e. `in` with a right-hand array constructor whose items are themselves arrays reached by name, variable, parentheses
+	// or a call: the constructor flattens them, so their members are members
+	for _, l := range []string{"1", `"a"`, "n4", "s1", "[1]", "7", "2", "nothing"} {
+		for _, rhs := range []string{"[a2]", "[a2, 9]", "[(a2)]", "[a1, a2]", "[a3]", "[$append(a1, a2)]", "[a2[0]]", "[a0, a2]", "[n4, a2]", "[[a2]]", "[a2, [9]]", "[$v]", "[$v, 9]", "[($v)]", "[$reverse(a2)]"} {
+			for _, op := range []string{"in"} {
+				c.diffEval("($v := a2; ("+l+") "+op+" "+rhs+")", input, "in-constructor-with-array-items")
+			}
+		}
+	}
+
 	// 3. random nesting up to depth 3
 	n = c.scale(4000, 60000)
 	for i := 0; i < n && !c.tooMany(); i++ {
